@@ -69,7 +69,17 @@ async def roundtrip(version, nv3, ni, node, prior=None):
         if prior is not None:
             # the stick is not factory fresh: an earlier network was written to it
             p_ni, p_node = copy.deepcopy(prior[0]), copy.deepcopy(prior[1])
-            await app.write_network_info(network_info=p_ni, node_info=p_node)
+            if len(prior) > 2 and prior[2] == "aborted":
+                # an earlier restore that broke off when the NCP refused to form the network: keys, address and counters of
+                # that attempt are in the NCP, which is not on a network
+                st.fail_form_once = True
+                try:
+                    await app.write_network_info(network_info=p_ni, node_info=p_node)
+                    out["prior_aborted"] = "completed"
+                except Exception as ex:  # noqa: BLE001
+                    out["prior_aborted"] = type(ex).__name__
+            else:
+                await app.write_network_info(network_info=p_ni, node_info=p_node)
             out["prior_fc"], out["prior_keys"] = st.nwk_fc, sum(1 for k in st.keys if k is not None)
         w_ni, w_node = copy.deepcopy(ni), copy.deepcopy(node)
         await app.write_network_info(network_info=w_ni, node_info=w_node)
@@ -130,6 +140,15 @@ def oracle(version, nv3, ni, node, o):
     B = t.EmberInitialSecurityBitmask
     if bytes(sec.networkKey) != bytes(ni.network_key.key) or int(sec.networkKeySequenceNumber) != ni.network_key.seq:
         return ("the security state sent does not carry the network key / sequence supplied", "sec")
+    # presence flags match the fields supplied: a trust-centre address is announced iff one is carried (the written
+    # settings hold it: the supplied one, or the adapter's own when write_network_info filled it in)
+    have_tc = B.HAVE_TRUST_CENTER_EUI64 in sec.bitmask
+    tc_known = o["written"].tc_link_key.partner_ieee != zt.EUI64.UNKNOWN
+    if have_tc != tc_known:
+        return (f"security state: trust-centre address flag is {have_tc} but the trust-centre address is "
+                f"{'known' if tc_known else 'unknown'} ({o['written'].tc_link_key.partner_ieee})", "sec")
+    if have_tc and bytes(sec.preconfiguredTrustCenterEui64.serialize()) != bytes(o["written"].tc_link_key.partner_ieee.serialize()):
+        return (f"security state carries trust-centre address {sec.preconfiguredTrustCenterEui64}, supplied {o['written'].tc_link_key.partner_ieee}", "sec")
     hashed = B.TRUST_CENTER_USES_HASHED_LINK_KEY in sec.bitmask
     if hashed != (version > 4):
         return (f"hashed-link-key flag is {hashed} for protocol version {version}", "sec")
@@ -197,7 +216,17 @@ def cases(ctx):
                     if node.ieee == zt.EUI64.UNKNOWN:
                         node.ieee = zt.EUI64.deserialize(bytes(rng.getrandbits(8) for _ in range(8)))[0]
                     prior = (copy.deepcopy(ni), copy.deepcopy(node))
-                if prior is not None and i % 4 == 1:
+                if i % 6 == 2:
+                    # an aborted earlier restore of another backup (with link keys), then this one (with fewer)
+                    pr = rand_settings(rng, v, "wellknown")
+                    while len(pr[0].key_table) < 2:
+                        pr = rand_settings(rng, v, "wellknown")
+                    # (no children in the aborted attempt: whether an NCP that never formed the network keeps child entries
+                    # written before the refusal is not something the simulated store can decide)
+                    pr[0].children, pr[0].nwk_addresses = [], {}
+                    prior = (pr[0], pr[1], "aborted")
+                    ni.key_table = ni.key_table[:1]
+                if prior is not None and len(prior) == 2 and i % 4 == 1:
                     prior[0].network_key.tx_counter = rng.randint(1, 1 << 31)  # a used stick, then a backup with a fresh counter
                     ni.network_key.tx_counter = 0
                 cs.append((v, nv3, mode, ni, node, prior))
@@ -239,7 +268,7 @@ def run(ctx):
         if a != b:
             ctx.corr_diff("write / read-back model and the real application over the NCP store differ", {"line": ln}, a, b)
     ctx.cov["rule"] = (f"{ctx.n(6, 40)} random settings per protocol version 4..14 and per capability (rewritable EUI64 token or not): PAN/extended PAN, channel and mask, update ID, network key with sequence and frame counter, "
-                       "channel masks with and without the current channel, frame counters including 0, the same backup restored twice, a factory-fresh NCP or one that already holds an earlier network (frame counter, keys, children), well-known or custom trust-centre link key with or without a stored hashed form, 0..5 link keys, 0..4 children with/without NWK addresses; write then read back through the real application and handlers")
+                       "channel masks with and without the current channel, frame counters including 0, the same backup restored twice, a restore after an aborted restore of another backup, a factory-fresh NCP or one that already holds an earlier network (frame counter, keys, children), well-known or custom trust-centre link key with or without a stored hashed form, 0..5 link keys, 0..4 children with/without NWK addresses; write then read back through the real application and handlers")
     ctx.exhaustive = False
 
 
